@@ -118,7 +118,7 @@ PROPS.update({
         assumptions=["ASCII names", "tag values without quote or backslash characters"]),
     "C15": dict(layer="none",
         streams=[S("vset", "check_vset_all", 500, 16000), S("built", "run_prop CFull P01", 300, 8000), S("built", "run_prop CFull P04", 200, 6000), S("built", "run_prop CPanic P06", 150, 4000)],
-        witness=[W("TestD4", "D4"), W("TestD19", "D19")],
+        witness=[W("TestD4", "D4"), W("TestD19", "D19"), W("TestD22", "D22"), W("TestD23", "D23")],
         nontrivial_rule="value list with at least two values / scenario with at least two executions",
         explanation="Theorem C15 (proofs/C141517VS*.v): a value set built from a list of values (subtypes without commas, names distinct up to case) reports them back in order with lower-cased names, finds every named value by name, a type-only value by type, and by type+subtype when unique. Correspondence: NewValueSet with random lists, all accessors, Signature/SignatureValues/FromSignature round trip into a fresh set; stream built: functions assembled with BuildFunc inside conversion chains must behave exactly like the model's ordinary struct-form functions (full trace, error pass-through).",
         assumptions=["BuildFunc functions are modelled as struct-in/struct-out functions with a final error; the sharing of their value sets with the callback is exercised, not modelled"]),
@@ -158,7 +158,7 @@ PROPS.update({
                  S("redefine", "run_prop CPanic P06", 300, 8000), S("convert", "run_prop CPanic P06", 150, 4000),
                  S("once", "run_prop CPanic P06", 200, 6000), S("built", "run_prop CPanic P06", 150, 4000),
                  S("call", "run_prop CPanic P06", 300, 6000, variant="nat"), S("redefine", "run_prop CPanic P06", 200, 4000, variant="nat")],
-        witness=[W("TestD3", "D3"), W("TestD4", "D4"), W("TestD5", "D5"), W("TestD6", "D6"), W("TestD9", "D9"), W("TestD10", "D10"), W("TestD15", "D15"), W("TestD19", "D19")],
+        witness=[W("TestD3", "D3"), W("TestD4", "D4"), W("TestD5", "D5"), W("TestD6", "D6"), W("TestD9", "D9"), W("TestD10", "D10"), W("TestD15", "D15"), W("TestD19", "D19"), W("TestD23", "D23")],
         nontrivial_rule="at least two function executions in the history",
         explanation="Theorems C06, C06_convert, C06_malformed (proofs/C06Total*.v): on well-formed use, with a transitive implements relation and a well-typed memo table, Call, Redefine and Convert of the model return Ok or a tape mismatch for EVERY order tape: never one of the model's panic sites (= the panic sites of the Go code: unknown source / dangling edge in Dijkstra, reflect.Set of a non-assignable value, nil lookups in outputValues, function vertex without function, \"didn't reach a final value\") and never out of fuel (bounded recursion); a nil or failing option is the build error. C06_untransitive_refuted shows the universe hypothesis is needed. Correspondence: panic/no-panic agreement plus a process-level watchdog (hang, memory) on every stream, instrumented and native map order; malformed stream (nil option, nil values, non-function and nil converters, failing generators).",
         assumptions=["domain bound: fewer than (2^63-1)/20 graph vertices", "names are Go identifiers (reflect.StructOf rejects others in NewValueSet/Redefine)"]),
